@@ -343,6 +343,45 @@ def e10(rep, src):
         rep.violation("E10", key, "the select alias replaces the GROUP BY column without checking that the name is not an input column (guard: %s)" % (show(g, 120) or "none"), "src/sql/relation.rs:%d" % a["l"])
 
 
+def e11(rep, src):
+    rep.rule(
+        "E11",
+        "MapBuilder::filter / ReduceBuilder::filter (the WHERE of a parsed SELECT goes through them): the filter expression reaches the rebuilt split on every arm and on every path of the arm "
+        "(in particular when the last split is a Reduce without an inner Map)",
+        floor=2,
+        necessary="a WHERE clause that is silently dropped changes the rows of the query",
+    )
+    for ty in ("MapBuilder", "ReduceBuilder"):
+        fs = [f for f in src.find_fns(name="filter", file="relation/builder.rs", self_ty_re=r"^%s<" % ty) if not f.trait]
+        if len(fs) != 1:
+            rep.undecidable("E11", ty + "::filter", "expected one inherent `filter` method, found %d" % len(fs), "src/relation/builder.rs")
+            continue
+        f = fs[0]
+        param = [p["pat"]["name"] for p in f.params if not p.get("self") and p["pat"]["k"] == "ident"][0]
+        ms = [m for m in find(f.body, "match")]
+        if len(ms) != 1:
+            rep.undecidable("E11", ty + "::filter", "expected one match over the last split", f.where())
+            continue
+        for a in ms[0]["arms"]:
+            pv = [p["path"]["segs"][-1] for p in walk(a["pat"]) if p["k"] == "tuplestruct" and p["path"]["segs"][-2:-1] == ["Split"]]
+            variant = pv[0] if pv else show(a["pat"], 30)
+            key = "%s::filter@%s" % (ty, variant)
+            uses = [x for x in walk(a["body"]) if x["k"] == "path" and x["segs"] == [param]]
+            # a use that sits only inside the closure of an `Option::map` (no or_else / unwrap_or / map_or fallback using the filter) is conditional
+            conditional = []
+            for m in find(a["body"], "mcall"):
+                if m["m"] == "map" and m["args"] and m["args"][0]["k"] == "closure" and any(x in list(walk(m["args"][0])) for x in uses):
+                    recv = show(m["recv"], 0)
+                    if ".map" in recv or "as_deref" in recv or "as_ref" in recv or recv.endswith(".map"):
+                        conditional.append(m)
+            uncond = [x for x in uses if not any(x in list(walk(m["args"][0])) for m in conditional)]
+            rep.instance("E11", key, {"builder": ty, "last_split": variant, "uses_of_filter": len(uses), "only_under_Option_map": bool(conditional) and not uncond})
+            if not uses:
+                rep.violation("E11", key, "the filter expression is not used when the last split is %s" % variant, "src/relation/builder.rs:%d" % a["l"])
+            elif conditional and not uncond:
+                rep.violation("E11", key, "the filter is only applied inside `%s.map(..)`: when the %s has no inner Map the WHERE clause is dropped" % (show(conditional[0]["recv"], 40), variant), "src/relation/builder.rs:%d" % a["l"])
+
+
 def run(rep):
     rep.explanation = (
         "Table agreement and structural rules of the render / read round trip on the default (PostgreSQL) path. E3/E4 join the renderer table (variant -> translator method -> SQL spelling, read from the type-resolved MIR) "
@@ -356,5 +395,6 @@ def run(rep):
     e7_e8(rep, src)
     e9(rep, src)
     e10(rep, src)
+    e11(rep, src)
     rep.assume("sqlparser 0.46 parses NAME(args) into ast::Expr::Function with that name, except the keyword functions listed in KEYWORD_FUNCTIONS")
     rep.assume("operators are rendered through same-named ast::BinaryOperator / UnaryOperator variants (read: function_match_constructor!)")
